@@ -872,6 +872,14 @@ def run(tier, seed, replay=None, scale=1.0):
     r.builds.append(b.info())
     if replay:
         j = json.load(open(replay))
+        if j["witness"].get("part") == "nonce-tcp":
+            shard, i = divmod(j["witness"]["case"], 1000)
+            part = report.Part()
+            nonce_case(b, tempfile.mkdtemp(prefix="verif-c10n-"), gen.rng_for(j["seed"], PROP, "nonce", shard, i), part, j["witness"]["case"])
+            part.sig("replay", 0)
+            part.sig("replay", 1)
+            r.merge(part)
+            return r.finish()
         sid = j["witness"]["scenario"]
         shard, i = divmod(sid, 100000)
         part = report.Part()
